@@ -411,7 +411,7 @@ pub fn main(seed: u64, tier: &str, only: Option<&str>) {
         run_case("replay", &out::unhex(f[3]), f[0] == "imp", f[1].parse().unwrap(), f[2].parse().unwrap(), &mut stats);
         return;
     }
-    let n = if tier == "thorough" { 6000 } else { 500 };
+    let n = if tier == "thorough" { 6000 * crate::out::thorough_scale() } else { 500 };
     for case in 0..n {
         let mut rng = Rng::new(seed ^ 0xc18, case as u64);
         let mut g = exec_cfg(&mut rng, case);
